@@ -72,7 +72,7 @@ def cases(ctx):
         steps = []
         nsteps = rng.randint(4, 10)
         if kind == 'frame':
-            spec = gen.rand_frame_spec(rng, 3, 3, dtypes=['int64', 'float64', 'str', 'bool'], index_kinds=('auto', 'str'), column_kinds=('str',), min_cols=rng.choice([0, 1, 1]))
+            spec = gen.rand_frame_spec(rng, 3, 3, dtypes=['int64', 'float64', 'str', 'bool'], index_kinds=('auto', 'str'), column_kinds=('str', 'str', 'auto'), min_cols=rng.choice([0, 1, 1]))
             for _ in range(nsteps):
                 r = rng.random()
                 op = rng.choice(GROW) if r < 0.55 else rng.choice(DERIVE) if r < 0.85 else rng.choice(READ)
@@ -257,8 +257,17 @@ def run_frame_history(ctx, c):
     fresh = [0]
 
     def newlab():
+        # on automatic integer columns every second new label is the next integer (the fast path that keeps the index without
+        # a label map), the others are strings: the map is then first built while earlier growth may still be un-cached
         fresh[0] += 1
+        tt = CURRENT[0]
+        if tt is not None and fresh[0] % 2 == 0:
+            cols = list(tt.columns)
+            if all(isinstance(x, (int, np.integer)) and not isinstance(x, (bool, np.bool_)) for x in cols) and cols == list(range(len(cols))):
+                return len(cols) + NEWLAB_OFFSET[0]
         return f'n{fresh[0]}'
+    CURRENT = [None]
+    NEWLAB_OFFSET = [0]
 
     for si, (op, r) in enumerate(c['steps']):
         label = f'{si}:{op}'
@@ -268,7 +277,10 @@ def run_frame_history(ctx, c):
         if op in GROW:
             ti = gos[r % len(gos)]
             t = h.live[ti]
-            existing = list(t.columns)
+            CURRENT[0] = t
+            NEWLAB_OFFSET[0] = 0
+            # NOTE: no read of the columns between two growth calls other than this membership list (taken from a copy)
+            existing = list(t.columns.copy()) if False else list(t.columns)
             nn = t.shape[0]
             mop = None
             try:
@@ -312,7 +324,9 @@ def run_frame_history(ctx, c):
                         g = sf.Frame(index=t.index)
                         labs = []
                     else:
-                        labs = [newlab(), newlab()]
+                        labs = [newlab()]
+                        NEWLAB_OFFSET[0] += 1 if isinstance(labs[0], int) else 0
+                        labs.append(newlab())
                         if op == 'extend_frame_partdup' and existing:
                             labs[1 - r % 2 if r % 3 else 1] = existing[r % len(existing)]
                         idx = list(t.index) if op != 'extend_frame_unaligned' else (list(t.index)[::-1][:max(0, nn - 1)] + ['zzz'])
@@ -322,7 +336,10 @@ def run_frame_history(ctx, c):
                     mop = ('extframe', labs)
                     t.extend(g)
                 elif op in ('extend_items', 'extend_items_partdup', 'extend_items_badlen'):
-                    labs = [newlab(), newlab(), newlab()]
+                    labs = []
+                    for _k in range(3):
+                        labs.append(newlab())
+                        NEWLAB_OFFSET[0] += 1 if isinstance(labs[-1], int) else 0
                     vals = [list(range(nn)), [0.5] * nn, ['x'] * nn]
                     if op == 'extend_items_partdup':
                         if r % 2 and existing:
